@@ -36,6 +36,12 @@ pub enum Call {
     SetSameLength,
     /// inc(0): what the I/O adaptors issue at end of file - a position request like any other
     IncZero,
+    /// update(|s| s.set_pos(..)): an ordinary redraw request like set_message
+    Update,
+    /// enable_steady_tick(Duration::ZERO) / disable_steady_tick() without a ticker: no ticker is started or
+    /// stopped, nothing is requested, and the bar keeps redrawing on its own afterwards
+    SteadyZero,
+    SteadyOff,
 }
 
 #[derive(Debug, Clone, Serialize, Deserialize)]
@@ -121,11 +127,26 @@ fn run_rate(c: &RateCase) -> CaseResult {
             near_multiple |= *k % 25 > 0;
         }
         let bi = if c.mode % 3 == 2 { i % 2 } else { 0 };
-        let call = &if c.full && matches!(call, Call::Inc | Call::SetPosition | Call::Dec | Call::SetLength) { Call::SetSameLength } else { *call };
+        let call = &if c.full && matches!(call, Call::Inc | Call::SetPosition | Call::Dec | Call::SetLength | Call::Update) { Call::SetSameLength } else { *call };
         let before = vt.nflush();
+        if matches!(call, Call::SteadyZero | Call::SteadyOff) {
+            match call {
+                Call::SteadyZero => bars[bi].pb.enable_steady_tick(std::time::Duration::ZERO),
+                _ => bars[bi].pb.disable_steady_tick(),
+            }
+            ensure!(vt.nflush() == before, "harness", "call #{i} {call:?} painted a frame");
+            v.label("steady_tick_switch_without_a_ticker");
+            continue;
+        }
         {
             let b = &mut bars[bi];
             match call {
+                Call::SteadyZero | Call::SteadyOff => unreachable!(),
+                Call::Update => {
+                    b.pos += 3;
+                    let p = b.pos;
+                    b.pb.update(|s| s.set_pos(p));
+                }
                 Call::Tick => b.pb.tick(),
                 Call::SetMessage => {
                     b.msg += 1;
@@ -238,7 +259,7 @@ fn rate_strategy(tier: Tier) -> BoxedStrategy<RateCase> {
     let n = tier.pick(400, 2000);
     let call = prop_oneof![4 => Just(Call::Tick), 2 => Just(Call::SetMessage), 1 => Just(Call::SetLength), 1 => Just(Call::SetSameLength), 3 => Just(Call::Inc), 1 => Just(Call::SetPosition), 1 => Just(Call::Dec)];
     let rate = || prop_oneof![2 => prop_oneof![Just(1u8), Just(3), Just(7), Just(20), Just(30), Just(60), Just(255)], 1 => 1u8..=255];
-    let call = prop_oneof![14 => call, 1 => Just(Call::IncZero)];
+    let call = prop_oneof![28 => call, 2 => Just(Call::IncZero), 3 => Just(Call::Update), 1 => Just(Call::SteadyZero), 1 => Just(Call::SteadyOff)];
     let free = (rate(), 0u8..3, proptest::collection::vec((gap_strategy(), call.clone()), 30..n), proptest::bool::weighted(0.15)).prop_map(|(rate, mode, calls, full)| RateCase { full, rate, mode, calls });
     // the burst is used up at the creation instant, then requests arrive exactly at, one ns before and
     // one ns after whole refresh intervals (the boundary of "at least one refresh interval after the
@@ -279,7 +300,7 @@ fn decode_rate(u: &mut FuzzInput) -> RateCase {
             14 => Gap::Secs(u.u16()),
             _ => Gap::Hours(u.u8()),
         };
-        let call = [Call::Tick, Call::Tick, Call::SetMessage, Call::SetLength, Call::SetSameLength, Call::Inc, Call::Inc, Call::SetPosition, Call::Dec, Call::IncZero][u.n(9)];
+        let call = [Call::Tick, Call::Tick, Call::SetMessage, Call::SetLength, Call::SetSameLength, Call::Inc, Call::Inc, Call::SetPosition, Call::Dec, Call::IncZero, Call::Update, Call::Update, Call::SteadyZero, Call::SteadyOff][u.n(13)];
         calls.push((gap, call));
     }
     RateCase { full: u.n(6) == 0, rate, mode, calls }
@@ -550,7 +571,7 @@ pub fn property() -> Property {
         parts: vec![
             Box::new(Gen::<RateCase> {
                 name: "frames",
-                rule: "refresh rate from {1,3,7,20,30,60,255} or 1..=255; standalone term_like_with_hz, first bar of a MultiProgress, or two bars of a MultiProgress alternating; 30-400 (thorough 2000) ordinary requests (tick/set_message/set_length/inc/set_position/dec with monotone payloads) at gaps from {0, ns, <1 ms, k*interval +-1 ns for k<25, interval/2, ms, s, hours}; window law via the running minimum of k*1e9 - R*t_k, staleness law per request, every painted frame compared with the latest state of all drawn bars; non-trivial = skipped and painted draws and a gap at an interval multiple",
+                rule: "refresh rate from {1,3,7,20,30,60,255} or 1..=255; standalone term_like_with_hz, first bar of a MultiProgress, or two bars of a MultiProgress alternating; 30-400 (thorough 2000) ordinary requests (tick/set_message/set_length/inc/inc(0)/set_position/dec/update(set_pos) with monotone payloads; enable_steady_tick(0) and disable_steady_tick() without a ticker interleaved as calls that request nothing) at gaps from {0, ns, <1 ms, k*interval +-1 ns for k<25, interval/2, ms, s, hours}; window law via the running minimum of k*1e9 - R*t_k, staleness law per request, every painted frame compared with the latest state of all drawn bars; non-trivial = skipped and painted draws and a gap at an interval multiple",
                 strategy: rate_strategy,
                 cases: |t| t.pick(1_500, 48_000),
                 run: run_rate,
